@@ -288,8 +288,8 @@ func init() {
 				Bound: fmt.Sprintf("all edge lists with <=%d edges x {dfs (minimality + no reversal in DAGs), greedy (no reversal in DAGs)}", d)},
 			{Name: "G-random-greedy", Space: spaceG(1, tierPick(tier, 4, 5), 0, nil), Eval: stdEval("C14", staticGrid(gridSpec{P1: []int{2}, P2: []int{0}, P4: []int{1}, P5: []int{1}, SZ: []int{1}}.list()), or),
 				Bound: "all edge lists with <=4 (thorough 5) edges x greedy-random with every RNG answer sequence"},
-			{Name: "G-deep-n4", Space: spaceG(d+1, tierPick(tier, d+1, d+2), 4, nil), Eval: stdEval("C14", staticGrid(g), or),
-				Bound: fmt.Sprintf("all edge lists with %d..%d edges on <=4 nodes x {dfs,greedy}", d+1, tierPick(tier, d+1, d+2))},
+			{Name: "G-deep-n4", Space: spaceG(d+1, d+1, 4, nil), Eval: stdEval("C14", staticGrid(g), or),
+				Bound: fmt.Sprintf("all edge lists with %d edges on <=4 nodes x {dfs,greedy}", d+1)},
 			{Name: "macro-3", Space: spaceMacro(3, false), Eval: stdEval("C14", staticGrid(g), or),
 				Bound: "every graph built by <=3 gadget insertions (path, fan-in/out, 3-/4-cycle, diamond, long-edge triangle; shapes with up to 13 edges)"},
 			{Name: "seeds", Space: spaceSeeded(seedWitnesses, tierPick(tier, 1, 2)), Eval: stdEval("C14", staticGrid(gridSpec{P1: []int{1, 0}, P2: allP2, P4: []int{1}, P5: []int{1}, SZ: []int{1}}.list()), or),
